@@ -97,7 +97,8 @@ ASSUMPTIONS = [
     "monitor 2: /repo/brz is an ELF launcher that cannot start in this sandbox (libpython3.12.so missing), so the child is "
     "`/venv/bin/python -m breezy serve --inet --directory=<dir> --allow-writes` with PYTHONPATH=$VERIF_REPO; x86_64 and "
     "aarch64 syscall numbers for read are known, other machines make a stall inconclusive; a stall is declared after "
-    "15 s without a byte (wall clock only decides WHEN to look at /proc, the verdict is the blocked read(0))",
+    "15 s without a byte, 90 s for the first response of a fresh child (wall clock only decides WHEN to look at /proc, "
+    "the verdict is the blocked read(0))",
     "monitor 2 uses real verbs (hello, Transport.is_readonly, BzrDir.open_2.1, Branch.last_revision_info, get, has, stat, "
     "readv, put, append, mkdir, Repository.get_parent_map, Repository.insert_stream_1.19 with a (garbage) body stream, "
     "an unregistered verb; v3: bodies for verbs that answer at args time); only completion of the response and successful "
@@ -109,6 +110,7 @@ ASSUMPTIONS = [
     "failed stingy/pipe run of such a request the socket driver is skipped for it (counted in the histogram)",
 ]
 STALL_S = 15.0
+START_S = 90.0      # patience for the first response of a fresh child (includes interpreter start-up + imports)
 
 
 def worker_init(tier):
@@ -478,9 +480,10 @@ class _PipeReader:
     def __init__(self, fd):
         self.fd = fd
         self.got = 0
+        self.patience = STALL_S
 
     def read(self, n):
-        r, _, _ = select.select([self.fd], [], [], STALL_S)
+        r, _, _ = select.select([self.fd], [], [], self.patience)
         if not r:
             raise Stall()
         d = os.read(self.fd, n)
@@ -495,11 +498,12 @@ class _PipeWriter:
     def __init__(self, fd):
         self.fd = fd
         self.sent = 0
+        self.patience = STALL_S
 
     def write(self, b):
         mv = memoryview(b)
         while mv:
-            _, w, _ = select.select([], [self.fd], [], STALL_S)
+            _, w, _ = select.select([], [self.fd], [], self.patience)
             if not w:
                 raise Stall()
             n = os.write(self.fd, mv[:65536])
@@ -645,6 +649,7 @@ def _e2e(ctx, nreq):
                             stdin=subprocess.PIPE, stdout=subprocess.PIPE, stderr=subprocess.PIPE, cwd=d, env=env, bufsize=0)
     t_end = time.time() + 240
     rd, wr = _PipeReader(proc.stdout.fileno()), _PipeWriter(proc.stdin.fileno())
+    rd.patience = wr.patience = START_S     # the first answer includes the start-up of the child (many seconds on a loaded machine)
     med = M.SmartSimplePipesClientMedium(rd, wr, "bzr://e2e/")
     cl = CL._SmartClient(med)
     try:
@@ -721,6 +726,7 @@ def _e2e(ctx, nreq):
                 ctx.note(("e2e", sig, "conn-error"), nontrivial=True)
                 break
             ctx.count("e2e_responses_complete")
+            rd.patience = wr.patience = STALL_S
             ctx.hist("e2e_outcome:" + outcome.split(":")[0])
             ctx.note(("e2e", sig, outcome), nontrivial=True,
                      sample={"e2e_request": sig, "outcome": outcome} if kind != "none" else None)
